@@ -95,6 +95,8 @@ def run_case_task(task):
         per_name = {}        # obligation name -> [status, backend, secs, n_vcs]
         unsupported = None
         failing = []         # (name, status, model_vals, solver text)
+        only = opts.get('only')          # goal-name patterns of the property being checked (None = all)
+        import fnmatch as _fn
         used, inl = set(), set()
         fnames = {}
         while shared.worklist:
@@ -119,7 +121,7 @@ def run_case_task(task):
                 out['detail'] = 'path assumptions unsatisfiable'
                 break
             # try all goals at once first
-            goals = [(n, g) for n, g in res.goals]
+            goals = [(n, g) for n, g in res.goals if only is None or any(_fn.fnmatchcase(n, p) for p in only)]
             pending = []
             for n, g in goals:
                 st, model, dt, be = verify.smt_check(res.assumptions, g)
@@ -154,7 +156,8 @@ def run_case_task(task):
                     break
             n_random = int(opts.get('n_random', 300))
             ign = tuple(x.split('.')[-1] for x in copts.get('ignore', ()))
-            w, tried = replay.search(c, build, mv, n_random=n_random, seed=int(opts.get('seed', 0)), ignore=ign)
+            w, tried = replay.search(c, build, mv, n_random=n_random, seed=int(opts.get('seed', 0)), ignore=ign,
+                                     only=only, post_body=copts.get('post_body'))
             out['replay_tried'] = tried
             if w is not None:
                 out['violation'] = {'witness': w, 'failing': [(f[0], f[1], f[3], f[4]) for f in failing[:8]]}
